@@ -169,13 +169,13 @@ Proof.
   rewrite <- N.add_1_r in H0. lia.
 Qed.
 
-Lemma read_correct_proof c fid f off len :
+Lemma read_pages_correct c fid f off len :
   0 < psize c -> coherent c -> files c fid = Some f ->
-  snd (pc_read c fid off len) = file_range f off len /\
-  coherent (fst (pc_read c fid off len)) /\
-  psize (fst (pc_read c fid off len)) = psize c /\ files (fst (pc_read c fid off len)) = files c.
+  snd (pc_read_pages c fid off len) = file_range f off len /\
+  coherent (fst (pc_read_pages c fid off len)) /\
+  psize (fst (pc_read_pages c fid off len)) = psize c /\ files (fst (pc_read_pages c fid off len)) = files c.
 Proof.
-  intros Hps Hc Hf. unfold pc_read, page_span, file_range. cbv zeta.
+  intros Hps Hc Hf. unfold pc_read_pages, page_span, file_range. cbv zeta.
   pose proof (div_bounds off (psize c) Hps) as [Hlo Hhi].
   pose proof (read_loop_spec fid f
                 (N.to_nat ((off + len - 1) / psize c + 1 - off / psize c)) c (off / psize c) off len []
@@ -188,6 +188,21 @@ Proof.
   replace (off / psize c + ((off + len - 1) / psize c + 1 - off / psize c))
     with ((off + len - 1) / psize c + 1) by lia.
   lia.
+Qed.
+
+Lemma read_correct_proof c fid f off len :
+  0 < psize c -> coherent c -> files c fid = Some f ->
+  snd (pc_read c fid off len) = file_range f off len /\
+  coherent (fst (pc_read c fid off len)) /\
+  psize (fst (pc_read c fid off len)) = psize c /\ files (fst (pc_read c fid off len)) = files c.
+Proof.
+  intros Hps Hc Hf. unfold pc_read. rewrite Hf.
+  destruct (N.leb_spec (nlen f) off) as [Hout|Hin].
+  - cbn [fst snd]. split; [|auto]. unfold file_range.
+    rewrite skipn_all2; [rewrite firstn_nil; reflexivity|]. rewrite <- nlen_len. lia.
+  - destruct (read_pages_correct c fid f off (N.min len (nlen f - off)) Hps Hc Hf) as (A & B).
+    split; [|exact B]. rewrite A. unfold file_range.
+    rewrite <- (firstn_min_len (N.to_nat len)). f_equal. rewrite skipn_length, <- nlen_len. lia.
 Qed.
 
 (* an unknown (virtual) file id yields no bytes at all *)
@@ -215,7 +230,8 @@ Lemma read_virtual_proof c fid off len :
   snd (pc_read c fid off len) = [] /\ coherent (fst (pc_read c fid off len)) /\
   psize (fst (pc_read c fid off len)) = psize c /\ files (fst (pc_read c fid off len)) = files c.
 Proof.
-  intros Hc Hf. unfold pc_read. destruct (page_span (psize c) off len) as [sp np].
+  intros Hc Hf. unfold pc_read. rewrite Hf. unfold pc_read_pages.
+  destruct (page_span (psize c) off len) as [sp np].
   exact (read_loop_virtual fid np c sp off len [] Hc Hf).
 Qed.
 
